@@ -57,8 +57,8 @@ impl Property for C17 {
     }
     fn cases(&self, tier: Tier) -> u64 {
         match tier {
-            Tier::Quick => 20_000,
-            Tier::Thorough => 500_000,
+            Tier::Quick => 100000,
+            Tier::Thorough => 1500000,
         }
     }
     fn watchdog_s(&self) -> u64 {
